@@ -13,6 +13,8 @@ import (
 	"testing"
 
 	"github.com/bytom/bytom/errors"
+	"github.com/bytom/bytom/protocol/bc"
+	"github.com/bytom/bytom/protocol/bc/types"
 	"github.com/bytom/bytom/protocol/validation"
 	"github.com/bytom/bytom/protocol/vm"
 
@@ -93,7 +95,77 @@ func validate(c *ev.Case, s *txSpec) (o observed, cls string, verr error, size u
 			gasUsed = gs.GasUsed
 		}
 	}
+	if batchOn && s.Block == 0 && !s.hasCoinbase() {
+		batch = append(batch, batchItem{s: s, tx: tx, cls: errClass(verr), o: o, gasUsed: gasUsed})
+	}
 	return o, errClass(verr), verr, tx.SerializedSize, gasUsed, true
+}
+
+// The block path: ValidateBlock and the proposer validate the transactions of a block through
+// validation.ValidateTxs (a pool of worker goroutines).  Every control and mutant that does not
+// need a special block context is collected and the whole family is validated once more as ONE
+// batch: a family is a transaction and its single-field mutants, i.e. many siblings with the same
+// inputs and different outputs (and the reverse), the hostile case for anything a worker keeps
+// between transactions.  Each batch result must be the result the single call gave.
+type batchItem struct {
+	s       *txSpec
+	tx      *types.Tx
+	cls     string
+	o       observed
+	gasUsed int64
+}
+
+var (
+	batch   []batchItem
+	batchOn bool
+)
+
+func checkBatch(c *ev.Case) {
+	items := batch
+	batch = nil
+	if len(items) < 2 {
+		return
+	}
+	// siblings next to each other and far apart
+	if c.Rand.Bool() {
+		c.Rand.Shuffle(len(items), func(i, j int) { items[i], items[j] = items[j], items[i] })
+	}
+	txs := make([]*bc.Tx, len(items))
+	for i, it := range items {
+		txs[i] = it.tx.Tx
+	}
+	block := &bc.Block{BlockHeader: &bc.BlockHeader{Version: 1, Height: 666}}
+	results := validation.ValidateTxs(txs, block, nilConverter)
+	c.Count("batches", 1)
+	c.Count("batch_transactions", int64(len(items)))
+	c.Eval(int64(len(items)))
+	for i, res := range results {
+		it := items[i]
+		cls := errClass(res.GetError())
+		key, detail := "", ""
+		switch {
+		case (cls == "accepted") != (it.cls == "accepted"):
+			key = "batch-differs-from-single:single=" + it.cls + ",batch=" + cls
+			detail = fmt.Sprintf("ValidateTx: %s, ValidateTxs[%d of %d]: %s", it.cls, i, len(items), cls)
+		case cls != it.cls:
+			// a transaction that breaks two rules may be refused for either (the checks walk Go maps): both verdicts are "rejected"
+			c.Count("batch_rejected_for_another_reason_than_single", 1)
+		case res.GetError() == nil && res.GetGasState() == nil:
+			key = "batch-differs-from-single:gas-state-nil"
+		case res.GetError() == nil && (res.GetGasState().BTMValue != it.o.btmValue || res.GetGasState().GasUsed != it.gasUsed):
+			key = "batch-differs-from-single:fee-or-gas"
+			detail = fmt.Sprintf("ValidateTx: BTMValue %d gas %d, ValidateTxs: BTMValue %d gas %d", it.o.btmValue, it.gasUsed, res.GetGasState().BTMValue, res.GetGasState().GasUsed)
+		}
+		if key != "" {
+			w := witness(it.s, res.GetError(), it.o)
+			w["oracle"], w["batch_size"], w["index_in_batch"] = detail, len(items), i
+			c.Violation(key, "a transaction validated as part of a batch (the block path) gets another verdict, fee or gas than when validated alone", w)
+		} else if cls == "accepted" {
+			c.Count("batch_accepted_same_as_single", 1)
+		} else {
+			c.Count("batch_rejected_same_as_single", 1)
+		}
+	}
 }
 
 func witness(s *txSpec, verr error, o observed) map[string]interface{} {
@@ -164,6 +236,11 @@ func check(c *ev.Case, s *txSpec, role, desc string) (observed, string, error) {
 }
 
 func runFamily(c *ev.Case, ctl *txSpec, role string) {
+	batch, batchOn = nil, true
+	defer func() {
+		batchOn = false
+		checkBatch(c)
+	}()
 	o, cls, verr := check(c, ctl, role, "")
 	c.Count(role, 1)
 	if cls == "" {
@@ -226,6 +303,9 @@ func TestC01(t *testing.T) {
 	if r.Thorough() {
 		scale = 40
 	}
+	r.Floor("batches", 300*scale)
+	r.Floor("batch_accepted_same_as_single", 5000*scale)
+	r.Floor("batch_rejected_same_as_single", 10000*scale)
 	r.Floor("control.accepted", 250*scale)
 	r.Floor("control-coinbase.accepted", 80*scale)
 	r.Floor("mutants.accepted", 6000*scale)
